@@ -19,7 +19,7 @@ import re
 import common as C
 
 PID = "C03"
-CLASS_NAMES = {5: "validity_same_second"}   # codes 1-4 were the classes repaired in the fix wave
+CLASS_NAMES = {}   # no finding class is left (codes 1-4: fix wave 1; 5 validity_same_second: fix wave 3)
 USER = "u@example.com"
 MSG = "From: a@example.com\r\nTo: u@example.com\r\nSubject: s%d\r\n\r\nbody %d\r\n"
 SEL_KINDS = ("uidcopy", "copy", "uidstore", "expunge", "close")
@@ -236,9 +236,11 @@ class Scenario:
                 continue
 
             def newval(name):
-                if name in post_m and (name not in pre_m or pre_m[name][0] != post_m[name][0] or pre_m[name][3] != post_m[name][3]):
-                    return post_m[name][3]
-                return 0
+                # the clock oracle of the op: the smallest UIDVALIDITY among the rows this op created
+                # (the first stamp the allocator handed out in it); 0 when it created none
+                old = set((m[0], m[3]) for m in (pre.get("mailboxes") or []))
+                fresh = [m[3] for m in (dump.get("mailboxes") or []) if (m[0], m[3]) not in old]
+                return min(fresh) if fresh else 0
             if k == "append":
                 op = "OAppend %s %s" % (C.coq_str(st["folder"]), coq_flags(st["flags"]))
             elif k == "deliver":
@@ -675,6 +677,33 @@ def rename_inbox_family():
     return out
 
 
+def hier_family():
+    """Mailbox hierarchies (outside the scope of the C03 theorems, inside the shared
+    model): implied parents of CREATE and RENAME (created inside the RENAME
+    transaction), children renamed with their parent, RENAME a a/b, RENAME INBOX
+    x/y, the Roles namespace, case variants of INBOX as parents, DELETE of a
+    mailbox with children.  Only the correspondence with the model is checked
+    on them (and the observation-only spec)."""
+    def c(k, **kw):
+        return dict(kw, k=k, s="c1")
+    return [
+        ("hier:create_parents", [c("create", name="a/b/c"), c("append", folder="a/b", flags=[]), c("status", name="a/b"),
+                                 c("create", name="a/b/d/"), c("delete", name="a/b"), c("delete", name="a/b/c"), c("create", name="a/b/c")]),
+        ("hier:rename_children", [c("create", name="a"), c("create", name="a/x"), c("append", folder="a/x", flags=[]), c("append", folder="a", flags=[]),
+                                  c("rename", old="a", new="p/q"), c("status", name="p/q/x"), c("append", folder="p/q/x", flags=[]),
+                                  c("append", folder="p", flags=[]), c("rename", old="p/q", new="a"), c("append", folder="a/x", flags=[])]),
+        ("hier:rename_into_child", [c("create", name="a"), c("create", name="a/x"), c("append", folder="a", flags=[]),
+                                    c("rename", old="a", new="a/b"), c("append", folder="a/b", flags=[]), c("status", name="a/b")]),
+        ("hier:rename_inbox_parents", [c("append", folder="INBOX", flags=[]), c("rename", old="INBOX", new="x/y"), c("status", name="x/y"),
+                                       c("append", folder="x/y", flags=[]), c("append", folder="x", flags=[]), c("append", folder="INBOX", flags=[])]),
+        ("hier:roles_and_inbox_parent", [c("create", name="Roles/x"), c("create", name="Roles"), c("rename", old="Trash", new="Roles/t"),
+                                         c("create", name="inbox/sub"), c("append", folder="inbox/sub", flags=[]), c("create", name="/lead"),
+                                         c("rename", old="Spam", new="/y")]),
+        ("hier:delete_defaults", [c("delete", name="sent"), c("delete", name="Sent"), c("create", name="sent"), c("delete", name="sent"),
+                                  c("delete", name="Spam"), c("deliver", folder="Spam"), c("status", name="Spam")]),
+    ]
+
+
 def unclassified_violation(sc, ev):
     """First observed violation of the property in an evaluated scenario that no
     listed class accounts for: text, or None."""
@@ -839,6 +868,7 @@ def run(chk):
     n_rand, n_clean, length = (40, 24, 22) if quick else (700, 300, 40)
     fam = rename_inbox_family()
     scripts = list(fam) if not quick else chk.rng.sample(fam, 10)       # structured family first
+    scripts += hier_family()
     scripts += [("random", gen_history(chk.rng, length, False, copy_ok)) for _ in range(n_rand)]
     scripts += [("clean", gen_history(chk.rng, length, True, copy_ok)) for _ in range(n_clean)]
     kinds = {}
